@@ -213,6 +213,8 @@ def _any_dom(st, s):
 @spec('c12c_keys_are')
 def c12c_keys_are(ex, st, d, a):
     """the dictionary d has exactly the keys of the set value a"""
+    if d.kind == 'none':        # (m5) `return None`: the clause is false, not out of subset
+        return v_bool(z3.BoolVal(False))
     if d.kind != 'dict':
         raise Unsupported(f'c12c_keys_are: not a dict ({d.kind})')
     return v_bool(st.read(as_ref(d), '$dom') == _any_dom(st, a))
@@ -240,3 +242,28 @@ def c12c_union_names(ex, st, children, the_type):
     f = uf('C12.names_of_type', Val, Val, DOM)
     tt = ex.box(st, the_type)
     return setval(union_of_doms(st, n, lambda k: f(z3.Select(arr, k), tt), ()))
+
+
+@spec('c12c_verdict_is')
+def c12c_verdict_is(ex, st, res, expected):
+    """(m5, round 3) the first component of the returned (verdict, message) pair is the boolean `expected`;
+    false when the function returns None instead of a pair (so that such a body FAILS its contract instead of leaving the subset)."""
+    if res.kind == 'none':
+        return v_bool(z3.BoolVal(False))
+    if res.kind != 'tuple':
+        raise Unsupported(f'c12c_verdict_is: not a pair ({res.kind})')
+    if res.items is not None:
+        first = res.items[0]
+    else:
+        first = V(Val.hd(res.t), res.ty.args[0] if res.ty.args else ANY)
+    return v_bool(VV.as_bool_raw(first) == VV.as_bool_raw(expected))
+
+
+@spec('c12c_maps_to')
+def c12c_maps_to(ex, st, d, key, value):
+    """(m5, round 3) the returned dictionary maps `key` to the object `value`; false when the body returns None"""
+    if d.kind == 'none':
+        return v_bool(z3.BoolVal(False))
+    if d.kind != 'dict':
+        raise Unsupported(f'c12c_maps_to: not a dict ({d.kind})')
+    return v_bool(z3.And(st.dict_has(d, key), st.dict_get(d, key).t == ex.box(st, value)))
